@@ -158,6 +158,11 @@ impl Ctx {
         }
     }
     /// A fact that does not depend on symbolic values beyond the path condition.
+    /// From here on comparisons against infinite / huge constants (`is_finite`, `x < f32::MAX`, ...) fork like any other
+    /// comparison instead of assuming the value domain (-1e30, 1e30): for Float32-only cases about overflow.
+    pub fn extreme_values(&mut self) {
+        symrt::with(|a| a.extreme_forks = true);
+    }
     pub fn fact(&mut self, role: &str, ok: bool, detail: String) {
         if !ok {
             self.push(role, Th::Real, B::True.not(), "fact", detail);
